@@ -265,6 +265,14 @@ func (w *World) tasks(fs ...func()) {
 // sleep advances simulated time for the calling task.
 func sleep(d time.Duration) { simrt.Sleep(d) }
 
+// stopLags: the slow-goroutine fault stops with the other faults when quiescence
+// begins; goroutines still being held back are waited for.
+func (w *World) stopLags() {
+	if d := simrt.Cur().StopLags(); d > 0 {
+		sleep(d)
+	}
+}
+
 // quiesce stops faults, lets every deadline pass and evaluates the end-state
 // oracles; then closes every channel and waits for them to report closed.
 // settle sleeps d, counted from the moment traffic ceased: data queued inside the
@@ -288,6 +296,7 @@ func (w *World) settle(d time.Duration) {
 
 func (w *World) quiesce(settle time.Duration, closeAll bool) {
 	w.QuiesceStarted = true
+	w.stopLags()
 	for _, l := range w.Net.Links {
 		l.Heal()
 	}
